@@ -656,7 +656,12 @@ class DynamicalAnnealer:
 
     def __call__(self, chain):
         iteration = chain.iteration // chain.swap_interval  # - 1 here ?
-        ars = chain.temperature_acceptance[:, -1]
+        # read the row that the sweep just wrote (the `temperature_acceptance`
+        # view may not show it after a clear at a non-multiple of swap_interval)
+        row = (chain.iteration - chain.lastclear - 1) // chain.swap_interval
+        ars = numpy.array(
+            chain._temperature_acceptance.data['acceptance_ratio'][row],
+            dtype=float).reshape(-1)
         ars[ars > 1] = 1.
         self._S += numpy.array([self._decay(iteration) * (ars[i] - ars[i+1])
                                 for i in range(chain.ntemps - 2)])
